@@ -7,6 +7,7 @@ import (
 	"encoding/binary"
 	"fmt"
 	"sort"
+	"strings"
 	"sync"
 	"testing"
 
@@ -98,6 +99,7 @@ func checkC08(c c08Case) (v verdict) {
 	sizes := map[int]bool{}
 	unsupportedBetween := false
 	succ := 0
+	var outs [][2]string
 	v = ok(false)
 	withReader(st, func() {
 		model := 0
@@ -138,6 +140,14 @@ func checkC08(c c08Case) (v verdict) {
 			model += n
 			sizes[n] = true
 			succ++
+			outs = append(outs, [2]string{got, strings.Clone(got)})
+			// a secret handed out earlier must not change when later ones are produced
+			for k, o := range outs {
+				if o[0] != o[1] {
+					v = bad(true, nil, "the secret returned by call %d changed after call %d: %q -> %q", k, i, o[1], o[0])
+					return
+				}
+			}
 		}
 	})
 	if v.Err != nil {
@@ -158,7 +168,7 @@ func checkC08(c c08Case) (v verdict) {
 }
 
 var c08Main = newPart("C08", "histories",
-	"rapid: call histories of 1..24 RandomSecret calls with algorithm values 0..255 (biased to the three hashes), crypto/rand.Reader replaced by a recording endless stream (SHA-256 counter-mode PRF of a drawn seed, or a constant byte 0x00/0xff/other) delivered in full or in short reads of 1..7 bytes; model = stream cursor: k-th successful call returns exactly unpadded upper-case base32 of stream[cur:cur+20|32|64], consumes exactly that many bytes, DecodeSecret maps it back; unsupported algorithm => error, no secret, nothing consumed; non-trivial = >= 2 successful calls of different sizes or an unsupported call after a successful one",
+	"rapid: call histories of 1..24 RandomSecret calls with algorithm values 0..255 (biased to the three hashes), crypto/rand.Reader replaced by a recording endless stream (SHA-256 counter-mode PRF of a drawn seed, or a constant byte 0x00/0xff/other) delivered in full or in short reads of 1..7 bytes; model = stream cursor: k-th successful call returns exactly unpadded upper-case base32 of stream[cur:cur+20|32|64], consumes exactly that many bytes, DecodeSecret maps it back, and every secret returned earlier in the history is still unchanged; unsupported algorithm => error, no secret, nothing consumed; non-trivial = >= 2 successful calls of different sizes or an unsupported call after a successful one",
 	checkC08)
 
 func genC08(t *rapid.T) c08Case {
